@@ -1,8 +1,17 @@
 // Harness for C06 (retransmission of confirmable requests): one scenario per input line, run with
 // real cc.Do calls on a udp/client.Conn over the in-memory session inside a synctest bubble.
 //
-//	cfg <ackTimeoutNs> <maxRetransmit> <nstart> | send <id> <deadlineNs|-> [<kind>] | sleep <ns> | tick <aheadNs>
+//	cfg <ackTimeoutNs> <maxRetransmit> <nstart> [<level>] | send <id> <deadlineNs|-> [<kind>] | sleep <ns> | tick <aheadNs>
 //	  | ack <id> | rst <id> | pig <id> <tag> | resp <id> <con|non> <tag> | cancel <id> | mut <id>
+//
+// level: where the transmission parameters come from and who builds the connection —
+//
+//	hand     (default) the three fields of client.Config are written directly, connection over the in-memory session
+//	opt      the fields are written by options.WithTransmission(nstart, ackTimeout, maxRetransmit).UDPClientApply
+//	dtlssrv  a real dtls.Server configured with options.WithTransmission(…) accepts a connection from an in-memory
+//	         listener (dtls/server: createConn copies the server's configuration); the confirmable request is issued
+//	         from the server side on that connection; `tick` is the function the server gives its periodic runner.
+//	         (The accepted connection keeps the default limit of one parallel request: single-request histories only.)
 //
 // kind (default g): g = GET without payload; q = GET with queries and Accept; p<n> = POST with an n-byte payload;
 // u<n> = PUT with an n-byte payload, If-Match and a query; d = DELETE. Requests of different kinds outstanding together
@@ -21,6 +30,7 @@ import (
 	"errors"
 	"fmt"
 	"io"
+	"net"
 	"sort"
 	"strconv"
 	"strings"
@@ -29,9 +39,11 @@ import (
 	"testing/synctest"
 	"time"
 
+	coapdtls "github.com/plgd-dev/go-coap/v3/dtls"
 	"github.com/plgd-dev/go-coap/v3/message"
 	"github.com/plgd-dev/go-coap/v3/message/codes"
 	"github.com/plgd-dev/go-coap/v3/message/pool"
+	"github.com/plgd-dev/go-coap/v3/options"
 	udpclient "github.com/plgd-dev/go-coap/v3/udp/client"
 	udpcoder "github.com/plgd-dev/go-coap/v3/udp/coder"
 	"verifharness/internal/lp"
@@ -69,7 +81,7 @@ type retEntry struct {
 
 type scenario struct {
 	cc      *udpclient.Conn
-	s       *mem.UDPSession
+	lk      link
 	base    time.Time
 	mu      sync.Mutex
 	calls   map[int]*call
@@ -114,7 +126,7 @@ func (sc *scenario) inject(typ message.Type, code codes.Code, mid int32, tok mes
 		m.SetContentFormat(message.TextPlain)
 		m.SetBody(bytes.NewReader([]byte(payload)))
 	}
-	_ = sc.cc.Process(nil, encode(m))
+	sc.lk.inject(encode(m))
 }
 
 // setupRequest fills req according to the kind letter of the `send` op.
@@ -169,7 +181,7 @@ func classify(err error) string {
 
 func (sc *scenario) observe(stamp int64, isTick bool) string {
 	var tx, oth []string
-	for _, d := range sc.s.TakeSent() {
+	for _, d := range sc.lk.takeSent() {
 		m := pool.NewMessage(context.Background())
 		if _, err := m.UnmarshalWithDecoder(udpcoder.DefaultCoder, d.Data); err != nil {
 			oth = append(oth, "undecodable")
@@ -223,29 +235,144 @@ func (sc *scenario) observe(stamp int64, isTick bool) string {
 	return "tx=" + j(tx) + " ret=" + j(rs) + " oth=" + j(oth)
 }
 
+// link is the path between the harness ("the peer") and the connection under test.
+type link struct {
+	inject   func(data []byte)
+	takeSent func() []mem.Sent
+	tick     func(now time.Time)
+	close    func()
+}
+
+func handLink(cc *udpclient.Conn, s *mem.UDPSession) link {
+	return link{
+		inject:   func(d []byte) { _ = cc.Process(nil, d) },
+		takeSent: s.TakeSent,
+		tick:     func(now time.Time) { cc.CheckExpirations(now) },
+		close:    func() { _ = cc.Close() },
+	}
+}
+
+type memAddr string
+
+func (a memAddr) Network() string { return "mem" }
+func (a memAddr) String() string  { return string(a) }
+
+// dtlsServerLink: a real dtls.Server, configured through options only, accepts one connection (plain net.Pipe end: no
+// handshake) from an in-memory listener; the connection under test is the one it hands to OnNewConn.
+func dtlsServerLink(nstart uint32, ackTimeout time.Duration, maxRetransmit uint32) (*udpclient.Conn, link) {
+	var tickFn func(now time.Time) bool
+	ch := make(chan *udpclient.Conn, 1)
+	srv := coapdtls.NewServer(
+		options.WithErrors(func(error) {}),
+		options.WithMessagePool(pool.New(64, 2048)),
+		options.WithPeriodicRunner(func(f func(now time.Time) bool) { tickFn = f }),
+		options.WithInactivityMonitor(100000*time.Hour, func(*udpclient.Conn) {}),
+		options.WithTransmission(nstart, ackTimeout, maxRetransmit),
+		options.WithOnNewConn(func(cc *udpclient.Conn) { ch <- cc }),
+	)
+	l := mem.NewListener()
+	served := make(chan struct{})
+	go func() { _ = srv.Serve(l); close(served) }()
+	a, b := net.Pipe()
+	var mu sync.Mutex
+	var got []mem.Sent
+	readerDone := make(chan struct{})
+	go func() {
+		defer close(readerDone)
+		buf := make([]byte, 65536)
+		for {
+			n, err := b.Read(buf)
+			if n > 0 {
+				mu.Lock()
+				got = append(got, mem.Sent{At: time.Now(), Data: append([]byte(nil), buf[:n]...)})
+				mu.Unlock()
+			}
+			if err != nil {
+				return
+			}
+		}
+	}()
+	l.Push(&mem.AddrConn{Conn: a, Local: memAddr("server"), Remote: memAddr("peer")})
+	synctest.Wait()
+	var cc *udpclient.Conn
+	select {
+	case cc = <-ch:
+	default:
+	}
+	lk := link{
+		inject: func(d []byte) { _, _ = b.Write(d) },
+		takeSent: func() []mem.Sent {
+			mu.Lock()
+			defer mu.Unlock()
+			o := got
+			got = nil
+			return o
+		},
+		tick: func(now time.Time) {
+			if tickFn != nil {
+				tickFn(now)
+			}
+		},
+		close: func() {
+			srv.Stop()
+			_ = b.Close()
+			<-readerDone
+			<-served
+		},
+	}
+	if tickFn == nil {
+		cc = nil
+	}
+	return cc, lk
+}
+
 func runScenario(t *testing.T, line string) string {
 	ops := strings.Split(line, "|")
 	var segs []string
 	synctest.Test(t, func(t *testing.T) {
 		first := strings.Fields(ops[0])
-		if len(first) != 4 || first[0] != "cfg" {
+		if (len(first) != 4 && len(first) != 5) || first[0] != "cfg" {
 			segs = append(segs, "bad-op")
 			return
 		}
 		ackTimeout, _ := strconv.ParseInt(first[1], 10, 64)
 		maxRetransmit, _ := strconv.ParseUint(first[2], 10, 32)
 		nstart, _ := strconv.ParseUint(first[3], 10, 32)
+		level := "hand"
+		if len(first) == 5 {
+			level = first[4]
+		}
 		sc := &scenario{calls: map[int]*call{}, peerMID: 10000, base: time.Now()}
-		sc.cc, sc.s = mem.NewUDPConn(mem.UDPOpts{Mutate: func(cfg *udpclient.Config) {
-			cfg.TransmissionAcknowledgeTimeout = time.Duration(ackTimeout)
-			cfg.TransmissionMaxRetransmit = uint32(maxRetransmit)
-			cfg.TransmissionNStart = uint32(nstart)
-			cfg.LimitClientParallelRequests = 0
-			cfg.LimitClientEndpointParallelRequests = 0
-			cfg.GetMID = func() int32 { return 0 }
-		}})
+		switch level {
+		case "hand", "opt":
+			var s *mem.UDPSession
+			sc.cc, s = mem.NewUDPConn(mem.UDPOpts{Mutate: func(cfg *udpclient.Config) {
+				if level == "opt" {
+					options.WithTransmission(uint32(nstart), time.Duration(ackTimeout), uint32(maxRetransmit)).UDPClientApply(cfg)
+				} else {
+					cfg.TransmissionAcknowledgeTimeout = time.Duration(ackTimeout)
+					cfg.TransmissionMaxRetransmit = uint32(maxRetransmit)
+					cfg.TransmissionNStart = uint32(nstart)
+				}
+				cfg.LimitClientParallelRequests = 0
+				cfg.LimitClientEndpointParallelRequests = 0
+				cfg.GetMID = func() int32 { return 0 }
+			}})
+			sc.lk = handLink(sc.cc, s)
+		case "dtlssrv":
+			sc.cc, sc.lk = dtlsServerLink(uint32(nstart), time.Duration(ackTimeout), uint32(maxRetransmit))
+			if sc.cc == nil {
+				sc.lk.close()
+				synctest.Wait()
+				segs = append(segs, "conn-error")
+				return
+			}
+		default:
+			segs = append(segs, "bad-level")
+			return
+		}
 		defer func() {
-			_ = sc.cc.Close()
+			sc.lk.close()
 			synctest.Wait()
 		}()
 		segs = append(segs, "tx=- ret=- oth=-")
@@ -308,7 +435,7 @@ func runScenario(t *testing.T, line string) string {
 				now := time.Now().Add(time.Duration(ahead))
 				stamp = now.Sub(sc.base).Nanoseconds()
 				isTick = true
-				sc.cc.CheckExpirations(now)
+				sc.lk.tick(now)
 			case "ack", "rst", "pig":
 				c, _ := idArg()
 				if c == nil {
